@@ -1,9 +1,12 @@
 """C06 -- trust-region sub-problem solvers: truncated CG, dogleg, eigenvalue-based solver, subspace CG."""
+import ast
 import contextlib
+import inspect
 import io
 import json
 import math
 import signal
+import textwrap
 
 import numpy as onp
 
@@ -17,32 +20,40 @@ LEVEL_TEXT = ('Partial. Coq theorems over R: tau of project_to_boundary_with_coe
               'every step along the Cauchy direction inside the region, tag interior => Newton residual < cgTolSquared; Euclidean mode: |z|<=Delta '
               'and =Delta when tagged boundary/neg curve; preconditioned inner-product mode with precond = M^-1, M symmetric positive definite (full CG conjugacy induction): '
               'at every pass the loop reaches the tracked zz, zd, dd (update_step_length_squared / Gould recurrences, generated kernels) equal z.Mz, z.Md, d.Md, '
-              'hence z.Mz<=Delta^2 and =Delta^2 when tagged boundary/neg curve; dogleg_step is on the path 0->cp->np and inside the radius in the mat_mul norm; '
-              'More-Sorensen sufficiency lemma; treigen hard case (as repaired by repo commit 5a997d7, findings F2/F2d fixed): step on the boundary and optimal up to 2|tau|eps*Delta under eigen hypotheses; binary64 witnesses for the open findings F2b (zero Hessian -> NaN) and F2c (uncapped secular loop stalls). '
-              'treigen.solve (model with eigh as oracle) returns a global minimiser, ONE theorem from the eigh contract (sig ascending, V orthogonal, A = V diag(sig) V^T; transpose_n proved to be the transpose): '
-              'interior |p|<Delta and optimal over the ball; hard case |p|=Delta and optimal up to 4*eps*Delta^2, eps=1e-12*mean|sig|; secular branch | |p|-Delta | <= 1e-9*Delta and optimal over the ball of radius |p| '
-              '(Newton iterates of the secular equation proved to stay on the side |p(lam)|>=Delta, so the multiplier is admissible); guards Delta>0, A<>0 (F2b); nothing claimed when the fuel of the secular loop runs out. '
-              'Not proved (tested by correspondence/L2 only): termination of the uncapped secular loop (F2c), the eigh contract itself (measured on every run), '
-              'EquationSolverSubspace.trust_region_cg beyond its tau kernel, '
-              'the Cauchy clause for the 0-iteration early return; binary64 drift of the recurrences (theorems are over R; the harness measures the drift on the first 4 passes, stream gould).')
+              'hence z.Mz<=Delta^2 and =Delta^2 when tagged boundary/neg curve; zero-iteration return (0 iterations <=> |g|^2 < cgTolSquared, zero step): the Cauchy clause is FALSE there unless g = 0, '
+              'proved instead: m(0) - m(t d0) <= D sqrt(cgTolSquared) - t^2/2 d0.H d0 for every step along the Cauchy direction in the Euclidean ball; '
+              'EquationSolverSubspace.trust_region_cg (hand model) called with Pr = precond r, HPr = hess_vec Pr: same clauses as the Euclidean mode (radius, boundary tags, decrease vs every Cauchy-direction step, interior residual, zero-iteration gap); '
+              'dogleg_step is on the path 0->cp->np and inside the radius in the mat_mul norm; '
+              'More-Sorensen sufficiency lemma; treigen hard case (as repaired by repo commit 5a997d7, findings F2/F2d fixed): step on the boundary and optimal up to 2|tau|eps*Delta under eigen hypotheses. '
+              'treigen.solve AS REPAIRED by repo commits 4d37146 (zero Hessian, F2b fixed) and 545a5c4 (capped secular loop with stall exit, F2c fixed) (model with eigh as oracle; the cap and the loop skeleton are read off the AST on every run) returns a global minimiser, '
+              'ONE theorem from the eigh contract (sig ascending, V orthogonal, A = V diag(sig) V^T; transpose_n proved to be the transpose) for EVERY matrix, radius > 0 and cap: '
+              'interior |p|<Delta and optimal over the ball; hard case |p|=Delta and optimal up to 4*eps*Delta^2, eps=1e-12*mean|sig|; zero Hessian |p|<=Delta (=Delta unless b=0) and exactly optimal; '
+              'secular tolerance exit | |p|-Delta | <= 1e-9*Delta and optimal over the ball of radius |p| (Newton iterates of the secular equation proved to stay on the side |p(lam)|>=Delta, so the multiplier is admissible); '
+              'secular capped exit: |p| > (1+1e-9) Delta, optimal over the ball of radius |p|, possible only while cap*eps*1e-9 <= |b|/Delta - eps; the stall exit lamNew == lam is proved unreachable over R (binary64 witnesses of the stall and cap exits and of the zero-Hessian return by vm_compute). '
+              'Termination of the secular Newton iteration over R for every tolerance > 0 (explicit pass bound, linear in 1/tol) and an explicit contraction (one step multiplies bError by at most 1 - (sig_0+lam)/(sig_max+lam), keeping it >= 0); the capped loop terminates by construction. '
+              'Not proved (tested by correspondence/L2 only): a rate of convergence explaining why 100 passes suffice (capped exits never observed with the source cap; reached only through the recompiled small-cap variant), '
+              'the eigh contract itself (measured on every run), binary64 behaviour: stalled runs are checked on the implementation (admissible multiplier, optimal for own radius, radius within 1e-12 + 2 ulp(lam)/(sig_0+lam) of Delta), '
+              'the zero-iteration gap in the preconditioned-norm region; binary64 drift of the recurrences (theorems are over R; the harness measures the drift on the first 4 passes, stream gould).')
 TECHNIQUE = 'Coq proof (Reals, nra/lra) on generated scalar kernels + hand models; vm_compute/PrimFloat correspondence and binary64 witnesses'
 GEN = ['EquationSolver', 'EquationSolverSubspace']
 TARGETS = ['model/M_C06_Vec.vo', 'model/M_C06_CG.vo', 'model/M_C06_Treigen.vo', 'proofs/L_C06_Vec.vo', 'proofs/L_C06_CG.vo',
-           'proofs/L_C06_CGpc.vo', 'proofs/L_C06_Dogleg.vo', 'proofs/L_C06_Treigen.vo', 'proofs/L_C06_TreigenFull.vo']
+           'proofs/L_C06_CGpc.vo', 'proofs/L_C06_CGss.vo', 'proofs/L_C06_Dogleg.vo', 'proofs/L_C06_Treigen.vo', 'proofs/L_C06_TreigenFull.vo']
 COQ_FILES = ['base/Num.v', 'model/M_C06_Vec.v', 'model/M_C06_CG.v', 'model/M_C06_Treigen.v', 'proofs/L_C06_Vec.v', 'proofs/L_C06_CG.v',
-             'proofs/L_C06_CGpc.v', 'proofs/L_C06_Dogleg.v', 'proofs/L_C06_Treigen.v', 'proofs/L_C06_TreigenFull.v', 'props/P_C06.v']
+             'proofs/L_C06_CGpc.v', 'proofs/L_C06_CGss.v', 'proofs/L_C06_Dogleg.v', 'proofs/L_C06_Treigen.v', 'proofs/L_C06_TreigenFull.v', 'props/P_C06.v']
 TRUSTED = ['Coq 8.16.1 kernel + vm_compute (no native_compute)',
            'tools/vlib/py2coq.py translator for the scalar kernels (cross-checked at binary64 against the implementation)',
-           'hand models model/M_C06_CG.v, M_C06_Treigen.v tied only by the correspondence (tags, iteration counts exact; vectors within stated tolerance)',
+           'hand models model/M_C06_CG.v, M_C06_Treigen.v tied by the correspondence (tags, iteration counts, treigen branch / loop exit / number of updates of lam exact; vectors within stated tolerance) and, for the secular loop of treigen.solve, by a structural check of the source AST (one `for` over range(<literal>), statement skeleton with its two breaks, literal 1e-9, test sigScale == 0)',
+           'the exit `range exhausted` of the secular loop is exercised on treigen.solve recompiled from its own source with only the range literal replaced (0..3 passes)',
            'harness: float<->(mantissa,exponent) exchange, near-tie rule (relative margin < 1e-9 of a branch comparison, or the result of the implementation itself moving beyond tolerance under <= 2 ulp entrywise noise on its operators => not compared, counted as unstable), reference optimum for treigen',
            'theorems are over exact reals; binary64 rounding is covered only by the correspondence']
 ASSUMPTIONS = ['hess_vec_func is a symmetric linear map and precond is positive (v.Pv > 0 for v != 0) on vectors of the problem dimension (section hypotheses of the CG theorem)',
                'preconditioned-radius theorems: precond is the inverse of a symmetric positive definite operator M (M(P v) = v, a.Mb = Ma.b, v.Mv > 0 for v != 0) and hess_vec_func is symmetric',
-               'mat_mul is symmetric linear positive semidefinite (dogleg theorem)', 'numpy eigh is an oracle (its output is logged and fed to the model); its contract -- sig ascending, V^T V = V V^T = I, A = V diag(sig) V^T -- is the hypothesis of C06_treigen_global_minimiser and is measured on the logged output of every run (tolerance 1e-12)',
+               'mat_mul is symmetric linear positive semidefinite (dogleg theorem)', 'EquationSolverSubspace.trust_region_cg is called with Pr = precond(r) and HPr = hess_vec(Pr) (what its caller passes)', 'numpy eigh is an oracle (its output is logged and fed to the model); its contract -- sig ascending, V^T V = V V^T = I, A = V diag(sig) V^T -- is the hypothesis of C06_treigen_global_minimiser and is measured on the logged output of every run (tolerance 1e-12)',
                'settings.cg_tol != 0 and max_cg_iters >= 1', 'exact real arithmetic in theorems']
 RULE = ('synthetic operators H = Q diag(sig) Q^T (sig drawn from definite / indefinite / singular / repeated families), SPD preconditioners (identity, exact, diagonal, poor), '
         'g random or orthogonal to the lowest eigenspace, radii 10^U(-6,6), both inner-product modes, max_cg_iters in {1,2,3,50}; dims 1..8 quick, 1..40 thorough; '
         'a case is non-trivial when the solver iterates at least once (CG), or the dogleg/treigen branch is not the trivial pass-through; distinct = distinct input tuples; '
+        'treigen streams: general (as above), zero Hessian (A = 0 incl. -0.0 entries, b random over 12 decades / with zero entries / zero), stall-directed (sig_0 < 0, Delta*|sig_0|/|b| = 10^U(6,8.5)), small-cap variant (cap 0..3 on inputs whose run needs more passes); '
         'exact-switch stream with dyadic data placed on |z|=Delta and curvature=0; stream gould: dims 2..8, precond = inverse of a generated SPD M (cond <~ 100), 70% SPD Hessians, '
         'radii 10^U(-1,4), cg_inexact_solve_ratio 1e-3, the scalar kernels wrapped to log zz, zd, dd per pass (distribution of exits / continuing passes in branch_histogram)')
 IMPORTS = ['From OV.gen Require Import Gen_EquationSolver Gen_EquationSolverSubspace.',
@@ -229,6 +240,52 @@ def gen_treigen_cases(ctx, count, nmax):
     return out
 
 
+def gen_treigen_zero_cases(ctx, count, nmax):
+    """zero model Hessian (the early return of repo commit 4d37146): A = 0 (some with -0.0 entries), b random over 12 decades, with zero
+    entries, or identically zero"""
+    r = ctx.rng('treigen_zero')
+    out = []
+    for _ in range(count):
+        n = r.randrange(1, nmax + 1)
+        a = onp.zeros((n, n)) * (-1.0 if r.random() < 0.2 else 1.0)
+        u = r.random()
+        if u < 0.2:
+            b = onp.zeros(n)
+        else:
+            b = onp.array([r.gauss(0, 1) for _ in range(n)]) * 10 ** r.uniform(-6, 6)
+            if u < 0.4 and n > 1:
+                b[r.randrange(n)] = 0.0
+        out.append(dict(kind='treigen', n=n, A=a.tolist(), b=b.tolist(), Delta=10 ** r.uniform(-6, 6), spectrum='zero', orth=False))
+    return out
+
+
+def gen_treigen_stall_cases(ctx, count, nmax):
+    """directed at the exit `lamNew == lam` of the secular loop (repo commit 545a5c4): lowest eigenvalue negative, |sig| in 10^U(-1,1), radius
+    10^U(2,6), and b scaled so that Delta*|sig_0|/|b| = 10^U(6,8.5): the root of the secular equation then sits at sig_0 + lam ~ |b|/Delta,
+    a few 1e8..1e6 ulps of lam, and bError moves by more than 1e-9 per ulp of lam"""
+    r = ctx.rng('treigen_stall')
+    out = []
+    for _ in range(count):
+        n = r.randrange(1, min(nmax, 8) + 1)
+        fam = r.choice(['negrep', 'neg', 'indef'])
+        if fam == 'negrep':
+            sig = [-10 ** r.uniform(-1, 1)] * n
+        elif fam == 'neg':
+            sig = sorted(-10 ** r.uniform(-1, 1) for _ in range(n))
+        else:
+            sig = sorted([-10 ** r.uniform(-1, 1)] + [r.choice([-1, 1]) * 10 ** r.uniform(-1, 1) for _ in range(n - 1)])
+        q = rand_orth(r, n)
+        a = (q * onp.array(sig)) @ q.T
+        a = 0.5 * (a + a.T)
+        delta = 10 ** r.uniform(2, 6)
+        b = onp.array([r.gauss(0, 1) for _ in range(n)])
+        if onp.linalg.norm(b) == 0.0:
+            b = q[:, 0].copy()
+        b = b / onp.linalg.norm(b) * (delta * abs(min(sig)) / 10 ** r.uniform(6, 8.5))
+        out.append(dict(kind='treigen', n=n, A=a.tolist(), b=b.tolist(), Delta=delta, spectrum='stall:' + fam, orth=False))
+    return out
+
+
 # ----------------------------------------------------------------------------- implementation runs
 
 def run_cg_impl(case, mods, which='cg', noise=None):
@@ -344,54 +401,108 @@ def _alarm(signum, frame):
     raise Timeout()
 
 
-def secular_stalls(sig, v, b, delta, cap=2000):
-    """numpy replica of the secular `while` of treigen.solve: True when lam reaches a fixed point (or the cap) with |bError| > 1e-9"""
-    sig, v, b = onp.array(sig), onp.array(v), onp.array(b)
-    bv = v.T @ b
-    bvv = bv * bv
-    with onp.errstate(all='ignore'):
-        eps = 1e-12 * onp.mean(onp.abs(sig))
-        lam = -sig[0] + eps if sig[0] < eps else 0.0
-        pn2 = bvv @ (1.0 / ((sig + lam) * (sig + lam)))
-        be = (math.sqrt(pn2) - delta) / delta if pn2 >= 0 else math.nan
-        for _ in range(cap):
-            if not abs(be) > 1e-9:
-                return False
-            q = bvv @ (1.0 / ((sig + lam) * (sig + lam) * (sig + lam)))
-            l2 = lam + (pn2 / q) * be
-            if l2 == lam:
-                return True
-            lam = l2
-            pn2 = bvv @ (1.0 / ((sig + lam) * (sig + lam)))
-            be = (math.sqrt(pn2) - delta) / delta if pn2 >= 0 else math.nan
-    return True
+EXPECTED_LOOP = ['If:Break', 'Assign', 'Assign', 'If:Break', 'Assign', 'Assign', 'Assign', 'Assign']
+
+
+def treigen_source_facts(treigen):
+    """structural tie, recomputed from the AST of treigen.solve on every run: the secular loop is ONE `for _ in range(<int literal>)`
+    (no `while`), its body has the statement skeleton of model/M_C06_Treigen.v `secular` (tolerance test + break, qNormSq, lamNew,
+    fixed-point test + break, lam, pNormSq, pNorm, bError), the tolerance literal is 1e-9 and the zero-Hessian test `sigScale == 0` is there.
+    Returns (cap, problems, tree)."""
+    src = textwrap.dedent(inspect.getsource(treigen.solve))
+    tree = ast.parse(src)
+    bad = []
+    fors = [n for n in ast.walk(tree) if isinstance(n, ast.For)]
+    if [n for n in ast.walk(tree) if isinstance(n, ast.While)]:
+        bad.append('treigen.solve contains a `while` loop (the model has a capped `for`)')
+    cap = None
+    if len(fors) != 1:
+        bad.append('treigen.solve has %d `for` loops, the model has one' % len(fors))
+    else:
+        f = fors[0]
+        it = f.iter
+        if (isinstance(it, ast.Call) and getattr(it.func, 'id', None) == 'range' and len(it.args) == 1 and isinstance(it.args[0], ast.Constant)
+                and isinstance(it.args[0].value, int)):
+            cap = it.args[0].value
+        else:
+            bad.append('the secular loop does not iterate over range(<int literal>)')
+        skel = [type(st).__name__ + (':Break' if isinstance(st, ast.If) and len(st.body) == 1 and isinstance(st.body[0], ast.Break) and not st.orelse else '')
+                for st in f.body]
+        if skel != EXPECTED_LOOP:
+            bad.append('secular loop body has the statement skeleton %r, the model was written for %r' % (skel, EXPECTED_LOOP))
+        lits = [n.value for n in ast.walk(f) if isinstance(n, ast.Constant) and isinstance(n.value, float)]
+        if lits != [1e-9]:
+            bad.append('float literals of the secular loop are %r, the model has [1e-9]' % lits)
+    if not any(isinstance(n, ast.Compare) and isinstance(n.left, ast.Name) and n.left.id == 'sigScale' and isinstance(n.ops[0], ast.Eq)
+               for n in ast.walk(tree)):
+        bad.append('no test `sigScale == ...` (zero-Hessian early return) in treigen.solve')
+    return cap, bad, tree
+
+
+def solve_variant(treigen, cap):
+    """treigen.solve recompiled from its own source with ONLY the literal of `range(...)` replaced by `cap` (same module globals, so the
+    logging wrappers apply): the way the harness reaches the exit 'range exhausted', which 100 passes never reach in binary64"""
+    _, _, tree = treigen_source_facts(treigen)
+    for n in ast.walk(tree):
+        if isinstance(n, ast.For) and isinstance(n.iter, ast.Call) and getattr(n.iter.func, 'id', None) == 'range':
+            n.iter.args = [ast.Constant(cap)]
+    ast.fix_missing_locations(tree)
+    ns = {}
+    exec(compile(tree, inspect.getsourcefile(treigen), 'exec'), treigen.__dict__, ns)
+    return ns['solve']
+
+
+TREIGEN_TIME_LIMIT = 20      # seconds per call of treigen.solve (a call takes milliseconds; the unrepaired loop of finding F2c never returned)
+
+
+def ulp(x):
+    return math.ulp(abs(x)) if math.isfinite(x) else math.nan
 
 
 def run_treigen_impl(case, mods):
+    """treigen.solve (or its recompiled variant with the cap case['cap']) under a time limit, with eigh, pnorm_squared and qnorm_squared wrapped
+    (module-level names, looked up by solve at call time): what eigh returned, how many passes of the secular loop began (calls of
+    qnorm_squared) and how many updated lam (calls of pnorm_squared - 1), the last |p|^2 and the last shifted spectrum sig + lam"""
     jnp, _, _, treigen = mods
-    log = {}
-    orig = treigen.eigh
-    s0, v0 = orig(jnp.array(case['A']))
-    pre = dict(sig=onp.array(s0).tolist(), V=onp.array(v0).tolist())
-    stalled = treigen_branch(case, pre) == 'secular' and secular_stalls(pre['sig'], pre['V'], case['b'], case['Delta'])
+    log = dict(q=0, pn=[])
+    o_eigh, o_p, o_q = treigen.eigh, treigen.pnorm_squared, treigen.qnorm_squared
 
-    def logged(a):
-        s, v = orig(a)
+    def eigh_l(a):
+        s, v = o_eigh(a)
         log['sig'], log['V'] = onp.array(s), onp.array(v)
         return s, v
-    treigen.eigh = logged
+
+    def p_l(bvv, sh):
+        res = o_p(bvv, sh)
+        sh = onp.array(sh)
+        log['pn'].append((float(res), float(sh[0]), float(sh.min())))
+        return res
+
+    def q_l(bvv, sh):
+        log['q'] += 1
+        return o_q(bvv, sh)
+    fn = treigen.solve if case.get('cap') is None else solve_variant(treigen, case['cap'])
+    treigen.eigh, treigen.pnorm_squared, treigen.qnorm_squared = eigh_l, p_l, q_l
     old = signal.signal(signal.SIGALRM, _alarm)
-    signal.alarm(4 if stalled else 60)
+    signal.alarm(TREIGEN_TIME_LIMIT)
     try:
-        p = quiet(treigen.solve, jnp.array(case['A']), jnp.array(case['b']), case['Delta'])
+        p = quiet(fn, jnp.array(case['A']), jnp.array(case['b']), case['Delta'])
         p = [float(v) for v in p]
     except Timeout:
         p = None
     finally:
         signal.alarm(0)
         signal.signal(signal.SIGALRM, old)
-        treigen.eigh = orig
-    return dict(p=p, sig=log['sig'].tolist(), V=log['V'].tolist(), stalled=bool(stalled))
+        treigen.eigh, treigen.pnorm_squared, treigen.qnorm_squared = o_eigh, o_p, o_q
+    out = dict(p=p, sig=log['sig'].tolist(), V=log['V'].tolist(), exit=None, updates=None, passes=log['q'])
+    out['branch'] = treigen_branch(case, out)
+    if out['branch'] == 'secular' and log['pn'] and p is not None:
+        upd = len(log['pn']) - 1
+        pn2, mu0, mumin = log['pn'][-1]
+        be = (math.sqrt(pn2) - case['Delta']) / case['Delta'] if pn2 >= 0 else math.nan
+        out.update(updates=upd, bError=be, mu=mu0, mu_min=mumin,
+                   exit='stalled' if log['q'] > upd else 'capped' if abs(be) > 1e-9 else 'converged')
+    return out
 
 
 def treigen_reference(a, b, delta):
@@ -481,6 +592,24 @@ def concl_cg(case, out, which='cg'):
         mc = tc * gd + 0.5 * tc * tc * curv
         if mz > mc + 1e-9 * (abs(mc) + sc):
             bad.append('model value %.12g worse than the Cauchy step %.12g' % (mz, mc))
+    if out['iters'] == 0:
+        # C06_cg_zero_iteration_return / C06_subspace_cg_step_properties: 0 iterations <=> |g|^2 < cgTolSquared, the step is zero, and the decrease
+        # the Euclidean Cauchy step would have achieved is <= D sqrt(cgTolSquared) - t^2/2 d0.H d0
+        tol2 = max(case['cgtol'] ** 2, case['ratio'] ** 2 * float(g @ g))
+        if not float(g @ g) < tol2 * (1 + 1e-12):
+            bad.append('0 iterations reported although |g|^2 = %.17g is not below cgTolSquared = %.17g' % (float(g @ g), tol2))
+        if onp.any(z != 0.0):
+            bad.append('0 iterations reported but the step is not zero')
+        dd0e, curv, gd = float(d0 @ d0), float(d0 @ h @ d0), float(g @ d0)
+        if dd0e > 0:
+            tmax = tr / math.sqrt(dd0e)
+            tc = min(tmax, -gd / curv) if curv > 0 else tmax
+            gap = -(tc * gd + 0.5 * tc * tc * curv)
+            bound = tr * math.sqrt(tol2) - 0.5 * tc * tc * curv
+            if not gap <= bound + 1e-12 * (abs(bound) + abs(tc * gd) + abs(0.5 * tc * tc * curv)):
+                bad.append('zero-iteration return: the Cauchy step would have decreased the model by %.12g > bound %.12g' % (gap, bound))
+    elif float(g @ g) < max(case['cgtol'] ** 2, case['ratio'] ** 2 * float(g @ g)) * (1 - 1e-12):
+        bad.append('|g|^2 below cgTolSquared but %d iterations reported' % out['iters'])
     if out['tag'] == 'interior':
         res = onp.linalg.norm(g + h @ z)
         tol = math.sqrt(max(case['cgtol'] ** 2, case['ratio'] ** 2 * float(g @ g)))
@@ -540,6 +669,8 @@ def treigen_branch(case, out):
     with onp.errstate(all='ignore'):
         if sig[0] > 0 and onp.linalg.norm(bv / sig) < case['Delta']:
             return 'interior'
+        if onp.mean(onp.abs(sig)) == 0:
+            return 'zero'
         eps = 1e-12 * onp.mean(onp.abs(sig))
         lam = -sig[0] + eps if sig[0] < eps else 0.0
         if sig[0] < eps and onp.linalg.norm(bv / (sig + lam)) < case['Delta']:
@@ -566,20 +697,77 @@ def eigh_contract(case, out, tol=1e-12):
     return bad
 
 
+def stall_radius_tolerance(out):
+    """relative radius tolerance of a run that left the secular loop through `lamNew == lam`.  At that exit the Newton correction
+    (N/Q)*bError rounds away against lam, i.e. |(N/Q)*bError| <= ulp(lam)/2, and N/Q >= sig_0 + lam (proofs/L_C06_TreigenFull.v pq_ratio), so
+    |bError| <= ulp(lam) / (2 (sig_0 + lam)); the sum sig + lam the step is formed with is itself rounded (<= ulp(max(|lam|,|sig_0|))/2 absolute,
+    the same amount relative to sig_0 + lam in |p|), and bError is evaluated with a few ulp(1) of error.  Stated bound:
+    1e-12 + 2 ulp(max(|lam|,|sig_0|)) / (sig_0 + lam), with sig_0 + lam the value the code itself used in its last evaluation of |p|^2
+    (measured: <= 0.5 ulp(lam)/(sig_0+lam) on every stalled run, as the argument predicts; evidence key treigen_stalled_radius_miss_max_in_units_of_ulp_lam_over_mu).  The resolution of lam, not 1e-9, is what limits these runs: the equation is
+    solved to the last bit of lam."""
+    mu, sig0 = out['mu'], out['sig'][0]
+    return 1e-12 + 2 * ulp(max(abs(mu - sig0), abs(sig0))) / mu
+
+
 def concl_treigen(case, out):
     """conclusion of C06_treigen_global_minimiser on the implementation, per branch: interior |p| < Delta; hard |p| = Delta (1e-10 relative,
-    measured 1e-15); secular | |p| - Delta | <= (1e-9 + 1e-12) Delta (the loop's exit test, measured <= 9.93e-10); model value against the
-    independent reference optimum with the slack of the theorem's clause for the branch taken"""
+    measured 1e-15); zero Hessian |p| = Delta (1e-12 relative) and model value -Delta|b| (the zero step when b = 0);
+    secular, tolerance exit: | |p| - Delta | <= (1e-9 + 1e-12) Delta (the loop's exit test, measured <= 9.93e-10);
+    secular, stalled exit (binary64 only): the multiplier reached is admissible (every entry of sig + lam > 0), | |p| - Delta | <=
+    stall_radius_tolerance * Delta, and the step is optimal over the ball of ITS OWN radius (the conclusion of C06_treigen_shifted_step_optimal);
+    secular, capped exit (only reachable with the recompiled small-cap variant): |p| >= (1 - stall_radius_tolerance) Delta (over R: > (1 + 1e-9) Delta)
+    and optimal over the ball of its own radius;
+    model value against the independent reference optimum with the slack of the theorem's clause for the branch taken"""
     bad = []
     if out['p'] is None:
-        return ['treigen.solve did not terminate (secular iteration %s)' % ('stalls at a fixed point of lam with |bError| > 1e-9' if out.get('stalled') else 'ran for 60 s')]
+        return ['treigen.solve did not terminate within %d s' % TREIGEN_TIME_LIMIT]
     p = onp.array(out['p'])
     if not onp.all(onp.isfinite(p)):
         return ['non-finite step']
     delta = case['Delta']
     br = out.get('branch') or treigen_branch(case, out)
+    ex = out.get('exit')
     pn = float(onp.linalg.norm(p))
-    if pn > delta * (1 + 1e-8):
+    b = onp.array(case['b'])
+    if br == 'zero':
+        bn = float(onp.linalg.norm(b))
+        if bn == 0.0:
+            if onp.any(p != 0.0):
+                bad.append('zero Hessian and zero gradient but the step is not zero')
+            return bad
+        if not abs(pn - delta) <= 1e-12 * delta:
+            bad.append('zero-Hessian step is not on the boundary: |p| = %.17g, radius %.17g' % (pn, delta))
+        if not float(p @ b) <= -delta * bn * (1 - 1e-12):
+            bad.append('zero-Hessian step is not the minimiser of s.b over the ball: p.b = %.17g, optimum %.17g' % (float(p @ b), -delta * bn))
+        return bad
+    radius = delta
+    if br == 'secular' and ex == 'stalled':
+        if not out['mu_min'] > 0:
+            bad.append('stalled secular run returns a step for an inadmissible multiplier: min(sig + lam) = %.17g' % out['mu_min'])
+            return bad
+        rt = stall_radius_tolerance(out)
+        if not abs(pn - delta) <= rt * delta:
+            bad.append('stalled secular step misses the boundary by more than the resolution of lam allows: |p| = %.17g, radius %.17g, '
+                       'allowed relative miss %.3g' % (pn, delta, rt))
+        radius = pn
+    elif br == 'secular' and ex == 'capped' and case.get('cap') is None:
+        # the UNMODIFIED source left its loop through the end of the range with |bError| > 1e-9: the step is not within the tolerance of the
+        # boundary (over R: outside the trust region).  Never observed with the source's cap of 100; accepted only in the small-cap variant
+        # stream, where the harness itself cut the range short (next clause).
+        bad.append('secular loop used all its passes without reaching 1e-9: |p| = %.17g, radius %.17g, bError %.3g after %s updates'
+                   % (pn, delta, out.get('bError', math.nan), out.get('updates')))
+        return bad
+    elif br == 'secular' and ex == 'capped':
+        if not out['mu_min'] > 0:
+            bad.append('capped secular run returns a step for an inadmissible multiplier: min(sig + lam) = %.17g' % out['mu_min'])
+            return bad
+        # over R a capped run is outside the radius (the iterates stay on the side |p| >= Delta); in binary64 the last update can land
+        # inside by what one ulp of lam does to |p| -- the same resolution bound as for a stalled run
+        if not pn >= delta * (1 - stall_radius_tolerance(out)):
+            bad.append('capped secular run is inside the radius by more than the resolution of lam allows: |p| = %.17g, radius %.17g, allowed relative miss %.3g'
+                       % (pn, delta, stall_radius_tolerance(out)))
+        radius = pn
+    elif pn > delta * (1 + 1e-8):
         bad.append('step outside the ball: %.17g > %.17g' % (pn, delta))
     elif br == 'interior' and not pn < delta * (1 + 1e-12):
         bad.append('interior branch but |p| = %.17g is not below the radius %.17g' % (pn, delta))
@@ -587,16 +775,18 @@ def concl_treigen(case, out):
         bad.append('hard-case step is not on the boundary: |p| = %.17g, radius %.17g' % (pn, delta))
     elif br == 'secular' and not abs(pn - delta) <= (1e-9 + 1e-12) * delta:
         bad.append('secular step misses the boundary by more than 1e-9: |p| = %.17g, radius %.17g' % (pn, delta))
-    ref = treigen_reference(case['A'], case['b'], delta)
+    ref = treigen_reference(case['A'], case['b'], radius)
     e = energy(case['A'], case['b'], p)
     a = onp.array(case['A'])
-    scale = abs(ref) + onp.linalg.norm(case['b']) * delta + onp.linalg.norm(a, 2) * delta * delta
+    scale = abs(ref) + onp.linalg.norm(case['b']) * radius + onp.linalg.norm(a, 2) * radius * radius
     # slack mirroring the theorem's clauses (was 1e-6*scale for every branch; measured gap <= 5e-15*scale on 11000 cases):
     # interior: exact optimum; hard: 4*eps*Delta^2 with eps = 1e-12*mean|sig|; secular: the radius may miss Delta by 1e-9 relative
+    # (stalled / capped exits: compared with the optimum over the ball of the step's own radius, same 2e-9 slack)
     eps = 1e-12 * float(onp.mean(onp.abs(onp.array(out['sig'])))) if 'sig' in out else 0.0
     slack = {'interior': 1e-10 * scale, 'hard': 4 * eps * delta * delta + 1e-10 * scale, 'secular': 2e-9 * scale}.get(br, 1e-6 * scale)
     if e > ref + slack:
-        bad.append('not a minimiser over the ball: model value %.17g, optimum %.17g (allowed slack %.3g)' % (e, ref, slack))
+        bad.append('not a minimiser over the ball%s: model value %.17g, optimum %.17g (allowed slack %.3g)'
+                   % ('' if radius == delta else ' of its own radius', e, ref, slack))
     return bad
 
 
@@ -621,10 +811,15 @@ def dogleg_expr(case):
             % (cmat(case['M']), cvec(case['cp']), cvec(case['np']), C.cf(case['tr']), cvec(case['cp']), cvec(case['np']), C.cf(case['tr'])))
 
 
-def treigen_expr(case, out):
-    return ('(let \'(br, p) := @treigen_solve float NumF 200%%nat %s %s %s %s in '
-            '[match br with TInterior => 0 | THard => 1 | TSecular k => 2 | TOutOfFuel => 3 end] ++ fencs p)'
-            % (cvec(out['sig']), cmat(out['V']), cvec(case['b']), C.cf(case['Delta'])))
+BR_CODE = {0: ('interior', None), 1: ('hard', None), 2: ('secular', 'converged'), 4: ('zero', None), 5: ('secular', 'stalled'), 6: ('secular', 'capped')}
+
+
+def treigen_expr(case, out, cap):
+    """[branch/exit code; updates of lam] ++ step; the cap of the secular loop is the literal read off the source (or the variant's cap)"""
+    return ('(let \'(br, p) := @treigen_solve float NumF %d%%nat %s %s %s %s in '
+            '(match br with TInterior => [0; 0] | THard => [1; 0] | TSecular k => [2; Z.of_nat k] | TZero => [4; 0] '
+            '| TStalled k => [5; Z.of_nat k] | TCapped k => [6; Z.of_nat k] end) ++ fencs p)'
+            % (cap, cvec(out['sig']), cmat(out['V']), cvec(case['b']), C.cf(case['Delta'])))
 
 
 def kernel_cases(ctx):
@@ -664,7 +859,13 @@ def correspondence(ctx, model_ok):
     cg_cases = gen_exact_switch_cases() + gen_cg_cases(ctx, 'cg', ctx.n(140, 600), nmax) + gen_gould_cases(ctx, ctx.n(40, 200))
     ss_cases = [dict(c, pc=False) for c in gen_cg_cases(ctx, 'sscg', ctx.n(50, 200), nmax)]
     dl_cases = gen_dogleg_cases(ctx, ctx.n(80, 300), nmax)
-    te_cases = gen_treigen_cases(ctx, ctx.n(100, 300), ctx.n(8, 40))
+    te_cases = (gen_treigen_cases(ctx, ctx.n(100, 300), ctx.n(8, 40)) + gen_treigen_zero_cases(ctx, ctx.n(12, 40), nmax)
+                + gen_treigen_stall_cases(ctx, ctx.n(40, 150), nmax))
+    cap, src_bad, _ = treigen_source_facts(treigen)
+    for b in src_bad:
+        ctx.fail('correspondence', 'treigen.solve no longer has the structure model/M_C06_Treigen.v was written for: ' + b, case=dict(kind='structure'))
+    ctx.cov['treigen_secular_cap_in_source'] = cap
+    cap = cap if cap is not None else 100
     distinct = set()
     hist = {}
 
@@ -684,6 +885,8 @@ def correspondence(ctx, model_ok):
                 ctx.fail('conclusion', 'solve_trust_region_minimization (preconditioned inner product, precond = M^-1): ' + b,
                          case=dict(c, kind='gould', impl=dict(o, passes=None)), concrete=True)
         bump('cg:' + o['tag'] + (':pc' if c['pc'] else ':euclid'))
+        if o['iters'] == 0:
+            bump('cg:zero-iteration return')
         if o['iters'] > 0:
             distinct.add(('cg', json.dumps([c['H'], c['P'], c['g'], c['tr'], c['pc'], c['mx'], c['cgtol'], c['ratio']])))
         for b in concl_cg(c, o, 'cg'):
@@ -693,6 +896,8 @@ def correspondence(ctx, model_ok):
         o = run_cg_impl(c, mods, 'ss')
         ss_out.append(o)
         bump('sscg:' + o['tag'])
+        if o['iters'] == 0:
+            bump('sscg:zero-iteration return')
         if o['iters'] > 0:
             distinct.add(('ss', json.dumps([c['H'], c['P'], c['g'], c['tr'], c['mx']])))
         for b in concl_cg(c, o, 'ss'):
@@ -708,18 +913,48 @@ def correspondence(ctx, model_ok):
             ctx.fail('conclusion', 'dogleg_step: ' + b, case=dict(c, impl=r), concrete=True)
     te_out = []
     eigh_bad = 0
-    for c in te_cases:
+    n_plain = len(te_cases)
+
+    def te_run(c):
+        nonlocal eigh_bad
         o = run_treigen_impl(c, mods)
-        o['branch'] = treigen_branch(c, o)
         te_out.append(o)
-        bump('treigen:' + o['branch'])
-        distinct.add(('te', json.dumps([c['A'], c['b'], c['Delta']])))
+        tag = 'treigen%s:%s' % ('' if c.get('cap') is None else '(cap variant)', o['branch'] + ('/' + o['exit'] if o.get('exit') else ''))
+        bump(tag)
+        if c['spectrum'].startswith(('zero', 'stall')):
+            bump('stream %s -> %s' % (c['spectrum'].split(':')[0], o['branch'] + ('/' + o['exit'] if o.get('exit') else '')))
+        distinct.add(('te', json.dumps([c['A'], c['b'], c['Delta'], c.get('cap')])))
         for b in concl_treigen(c, o):
-            ctx.fail('conclusion', 'treigen.solve (%s branch): %s' % (o['branch'], b), case=dict(c, impl=o, branch=o['branch'], stalled=o['stalled']), concrete=True)
+            ctx.fail('conclusion', 'treigen.solve (%s branch%s): %s' % (o['branch'], ', exit ' + o['exit'] if o.get('exit') else '', b),
+                     case=dict(c, impl=o, branch=o['branch']), concrete=True)
         for b in eigh_contract(c, o):
             eigh_bad += 1
             ctx.fail('assumption', 'eigh contract assumed by C06_treigen_global_minimiser does not hold for what treigen.solve received: ' + b,
                      case=dict(c, impl=o, branch=o['branch']))
+        return o
+    for c in te_cases:
+        te_run(c)
+    # the exit 'range exhausted': the same source recompiled with a cap of 0..3 passes, on inputs whose unmodified run needed more passes
+    rc = ctx.rng('treigen_cap')
+    want = ctx.n(30, 100)
+    for i in range(n_plain):
+        o = te_out[i]
+        if (want > 0 and o['branch'] == 'secular' and o.get('updates') and not te_cases[i].get('orth')
+                and (i % 3 == 0 or te_cases[i]['spectrum'].startswith('stall'))):
+            k = rc.randrange(0, min(4, o['updates'] + 1))
+            te_cases.append(dict(te_cases[i], cap=k))
+            te_run(te_cases[-1])
+            want -= 1
+    stalled = [o for o in te_out if o.get('exit') == 'stalled']
+    ctx.count('treigen_stalled_exits', len(stalled))
+    ctx.count('treigen_capped_exits_small_cap_variant', sum(1 for o in te_out if o.get('exit') == 'capped'))
+    ctx.count('treigen_zero_hessian_returns', sum(1 for o in te_out if o['branch'] == 'zero'))
+    if stalled:
+        ctx.cov['treigen_stalled_radius_miss_max_in_units_of_ulp_lam_over_mu'] = max(
+            abs(float(onp.linalg.norm(o['p'])) - c['Delta']) / c['Delta'] / ((stall_radius_tolerance(o) - 1e-12) / 2)
+            for c, o in zip(te_cases, te_out) if o.get('exit') == 'stalled')
+        ctx.cov['treigen_stalled_radius_miss_max_relative'] = max(
+            abs(float(onp.linalg.norm(o['p'])) - c['Delta']) / c['Delta'] for c, o in zip(te_cases, te_out) if o.get('exit') == 'stalled')
     # generated scalar kernels on the implementation
     ks = kernel_cases(ctx)
     k_impl = []
@@ -813,11 +1048,14 @@ def correspondence(ctx, model_ok):
     for i, c in enumerate(te_cases):
         if te_out[i]['p'] is not None:
             by_shard.setdefault(shard_for(c['n']), []).append(i)
-    brn = {0: 'interior', 1: 'hard', 2: 'secular', 3: 'out-of-fuel'}
+    exit_same = exit_diff = 0
     for sh, idxs in by_shard.items():
-        res = C.coq_eval(IMPORTS, [treigen_expr(te_cases[i], te_out[i]) for i in idxs], 'C06te', shard=sh)
+        res = C.coq_eval(IMPORTS, [treigen_expr(te_cases[i], te_out[i], cap if te_cases[i].get('cap') is None else te_cases[i]['cap']) for i in idxs],
+                         'C06te', shard=sh)
         for i, rr in zip(idxs, res):
             c, o = te_cases[i], te_out[i]
+            mbr, mex = BR_CODE.get(rr[0], ('code %d' % rr[0], None))
+            mupd, mp = rr[1], C.dec_floats(rr[2:])
             sig, v, b = onp.array(o['sig']), onp.array(o['V']), onp.array(c['b'])
             bv = v.T @ b
             with onp.errstate(all='ignore'):
@@ -826,27 +1064,72 @@ def correspondence(ctx, model_ok):
                 n1 = onp.linalg.norm(bv / sig)
                 n2 = onp.linalg.norm(bv / (sig + lam))
                 near = (abs(n1 - c['Delta']) / (n1 + c['Delta']) < 1e-7 or abs(n2 - c['Delta']) / (n2 + c['Delta']) < 1e-7 or abs(sig[0]) < 2 * eps)
-            if brn[rr[0]] != o['branch']:
-                if near:
+            if mbr != o['branch']:
+                if near and 'zero' not in (mbr, o['branch']):
                     unstable += 1
                 else:
-                    l1('treigen.solve', 'model branch %s but implementation branch %s' % (brn[rr[0]], o['branch']), dict(c, impl=o))
+                    l1('treigen.solve', 'model branch %s but implementation branch %s' % (mbr, o['branch']), dict(c, impl=o))
                 continue
+            # secular loop: exit taken and number of updates of lam.  sens = ulp(lam)/(sig_0+lam) is what one ulp of lam does to bError:
+            # where it is not negligible against the 1e-9 test (the stall regime) the last bit of the Newton correction decides between
+            # `lamNew == lam`, one more update and the tolerance exit, and the sum-order of the dot products may differ between XLA and the model
+            sens = 0.0
+            if o['branch'] == 'secular' and o.get('exit') is not None:
+                sens = ulp(max(abs(o['mu'] - sig[0]), abs(sig[0]))) / o['mu'] if o['mu'] > 0 else math.inf
+                if (mex, mupd) == (o['exit'], o['updates']):
+                    exit_same += 1
+                else:
+                    exit_diff += 1
+                    touchy = sens > 1e-12 or near or abs(abs(o['bError']) - 1e-9) < 1e-14 + 4 * sens
+                    if not touchy and sig[0] < eps:
+                        # the start lam = -sig_0 + eps puts the weight 1/eps^2 = 1e24/mean|sig|^2 on the components of V^T b in the lowest
+                        # eigenspace: when b is (numerically) orthogonal to it those components are rounding noise of the product V^T b,
+                        # the first iterates depend on that noise, and so can the pass at which 1e-9 is reached
+                        low = onp.abs(sig - sig[0]) <= 1e-8 * max(float(onp.abs(sig).max()), 1e-300)
+                        touchy = bool(onp.any(onp.abs(bv[low]) <= 1e-10 * float(onp.linalg.norm(b))))
+                    if not touchy:
+                        # last resort: does the implementation itself change its exit / pass count when b is perturbed entrywise by <= 2 ulp?
+                        for kk in range(4):
+                            rs = onp.random.RandomState(ctx.seed % 100000 + 13 * kk + i)
+                            o2 = run_treigen_impl(dict(c, b=(b * (1.0 + rs.uniform(-1, 1, size=b.shape) * 4.4e-16)).tolist()), mods)
+                            if (o2.get('exit'), o2.get('updates')) != (o['exit'], o['updates']):
+                                touchy = True
+                                break
+                    if not touchy or abs(mupd - o['updates']) > 2:
+                        l1('treigen.solve', 'secular loop: model leaves by %s after %d updates, implementation by %s after %d (sensitivity %.3g)'
+                           % (mex, mupd, o['exit'], o['updates'], sens), dict(c, impl=o))
+                        continue
+                    unstable += 1
             # the secular iteration stops at relative boundary error 1e-9 and divides by sig+lam: compare at a tolerance reflecting that
+            # (plus 8 ulp(lam)/(sig_0+lam) in the stall regime);
             # the hard-case branch divides the rounding noise of bv[0] (~1e-16 |b|) by eps = 1e-12*mean|sig|: compare accordingly
-            rt, at = 1e-6, 1e-300
+            rt, at = 1e-6 + 8 * sens, 1e-300
             if o['branch'] == 'hard':
                 rt, at = 1e-3, 1e-3 * float(onp.linalg.norm(b)) / max(float(onp.mean(onp.abs(sig))), 1e-300)
-            ok, err = vec_close(C.dec_floats(rr[1:]), o['p'], rt, at)
+            if o['branch'] == 'zero':
+                rt, at = 1e-14, 0.0
+            ok, err = vec_close(mp, o['p'], rt, at)
             if not ok:
                 # ill-conditioned secular / hard cases: accept when both are within 1e-6 in model value and radius (the L2 quantities)
-                pm = onp.array(C.dec_floats(rr[1:]))
+                pm = onp.array(mp)
                 em, ei = energy(c['A'], c['b'], pm), energy(c['A'], c['b'], o['p'])
                 sc = abs(ei) + onp.linalg.norm(b) * c['Delta'] + 1e-300
-                if near or (abs(em - ei) <= 1e-6 * sc and abs(onp.linalg.norm(pm) - onp.linalg.norm(o['p'])) <= 1e-6 * c['Delta']):
+                moved = False
+                if o['branch'] == 'secular' and o.get('exit') == 'capped':
+                    # an UNCONVERGED iterate (small-cap variant) can depend on the rounding noise of V^T b (b nearly orthogonal to the lowest
+                    # eigenvector): does the implementation itself move beyond the tolerance when b is perturbed entrywise by <= 2 ulp?
+                    for kk in range(3):
+                        rs = onp.random.RandomState(ctx.seed % 100000 + 17 * kk + i)
+                        o2 = run_treigen_impl(dict(c, b=(b * (1.0 + rs.uniform(-1, 1, size=b.shape) * 4.4e-16)).tolist()), mods)
+                        if o2['p'] is None or (o2.get('exit'), o2.get('updates')) != (o['exit'], o['updates']) or not vec_close(o2['p'], o['p'], rt, at)[0]:
+                            moved = True
+                            break
+                if moved or (o['branch'] != 'zero' and (near or (abs(em - ei) <= 1e-6 * sc and abs(onp.linalg.norm(pm) - onp.linalg.norm(o['p'])) <= 1e-6 * c['Delta']))):
                     unstable += 1
                 else:
                     l1('treigen.solve', 'result differs: rel err %.3g (branch %s)' % (err, o['branch']), dict(c, impl=o, model=pm.tolist()))
+    ctx.count('treigen_secular_exit_and_pass_count_equal', exit_same)
+    ctx.count('treigen_secular_exit_or_pass_count_differs_noise_dependent', exit_diff)
     # generated kernels
     ex = []
     for (tr, zz, zd, dd, al, be, rpr) in ks:
@@ -893,35 +1176,31 @@ def f2_witness_case():
 
 
 def finding_fails(ctx, f):
+    """replay of a finding's witness on the implementation (every call of treigen.solve under TREIGEN_TIME_LIMIT; F2c's witness did not return
+    before repo commit 545a5c4).  All four findings are fixed: any complaint of the conclusion predicate on the witness is a recurrence."""
     mods = _mods()
     c = f['witness'].get('case') or f2_witness_case()
     o = run_treigen_impl(c, mods)
-    o['branch'] = treigen_branch(c, o)
     bad = concl_treigen(c, o)
     if f.get('id') == 'F2':
         return o['branch'] == 'hard' and any('not a minimiser' in b for b in bad)
     if f.get('id') == 'F2d':
         return bool(bad)
     if f.get('id') == 'F2b':
-        return any('non-finite' in b for b in bad)
+        return o['branch'] != 'zero' or bool(bad)
     if f.get('id') == 'F2c':
-        return o['p'] is None and o['stalled']
+        return o['p'] is None or bool(bad)
     return False
 
 
 def matches_finding(fl, f):
-    """F2 exactly: treigen.solve took the hard-case branch and the only complaint is non-optimality of that step.
-    F2b exactly: the matrix is identically zero and the complaint is a non-finite step.
-    F2c exactly: secular branch, no termination, and the numpy replica of the iteration sits at a fixed point of lam with |bError| > 1e-9."""
+    """signatures of OPEN findings only (none at present: F2, F2d, F2b, F2c are fixed, a recurrence is a violation).
+    F2 (kept for reference) exactly: treigen.solve took the hard-case branch and the only complaint is non-optimality of that step."""
     c = fl.get('case') or {}
-    if fl.get('kind') != 'conclusion' or c.get('kind') != 'treigen':
+    if fl.get('kind') != 'conclusion' or c.get('kind') != 'treigen' or f.get('status') != 'open':
         return False
     if f.get('id') == 'F2':
         return c.get('branch') == 'hard' and 'not a minimiser' in fl.get('what', '')
-    if f.get('id') == 'F2b':
-        return 'non-finite step' in fl.get('what', '') and all(v == 0.0 for row in c.get('A', [[1]]) for v in row)
-    if f.get('id') == 'F2c':
-        return 'did not terminate' in fl.get('what', '') and c.get('branch') == 'secular' and c.get('stalled') is True
     return False
 
 
